@@ -402,7 +402,9 @@ def derived(ctx, kind, prim, model, deriv, seq, label, persist):
         with torch.no_grad():
             pr = h2.price(d2, n_paths=3)
             ls = h2.compute_loss(d2, n_paths=3)
-        for name, v in (("price", pr), ("compute_loss", ls)):
+            pr2 = h2.price(d2, n_paths=3, n_times=2)  # averages over several simulations: the mean of 0-dim results keeps their dtype
+            ls2 = h2.compute_loss(d2, n_paths=3, n_times=2)
+        for name, v in (("price", pr), ("compute_loss", ls), ("price(n_times=2)", pr2), ("compute_loss(n_times=2)", ls2)):
             ctx.seen(mon)
             if v.dtype != want:
                 ctx.violation(mon, "derived_dtype." + name, f"{label} after {seq}: {name} has dtype {v.dtype}, expected {want}", sig=(label, name, str(want)),
